@@ -69,8 +69,9 @@ def gh(index, rep):
             obj = Obj(cls, {"ADD_OUTDOOR_GROWING": True, "NMONTHS": Rat.atom("N"), "KCALS_GROWN": Path(("grown",)),
                             "NO_RELOCATION_KCALS_GROWN": Path(("grown_norel",)), "CROP_WASTE_DISTRIBUTION": Rat.atom(("Wd",)),
                             "OG_FRACTION_FAT": Rat.atom(("ff",)), "OG_FRACTION_PROTEIN": Rat.atom(("fp",))}, "self")
-            P_ = [a.arg for a in fn.args.args]
-            env = {P_[0]: obj, P_[1]: Path(("c",)), P_[2]: gfa}
+            from .core import ref_params as _rp9
+            pc_, pg_ = _rp9(fn, ["constants_for_params", "greenhouse_fraction_area"])
+            env = {fn.args.args[0].arg: obj, pc_: Path(("c",)), pg_: gfa}
             # evaluate up to (not including) the statement that builds the production Food object
             pname, upto = c08.production_split(fn)
             it.exec_block([st for st in fn.body[:upto] if not (isinstance(st, ast.Expr) and isinstance(st.value, ast.Constant))], env)
@@ -118,7 +119,9 @@ def gh(index, rep):
     call = [c for c in walk_no_nested(p) if isinstance(c, ast.Call) and isinstance(c.func, ast.Attribute) and c.func.attr == "set_crop_production_minus_greenhouse_area"]
     from .core import Inliner as _Inl
     inl_p = _Inl(p)
-    share_src = inl_p.src(call[0].args[1]) if len(call) == 1 and len(call[0].args) > 1 else ""
+    from .core import args_by_ref_names as _abn9
+    share_e = _abn9(call[0], fn, ["constants_for_params", "greenhouse_fraction_area"])[1] if len(call) == 1 else None
+    share_src = inl_p.src(share_e) if share_e is not None else ""
     area_calls = [inl_p.src(c_.func.value) for c_ in walk_no_nested(p) if isinstance(c_, ast.Call) and isinstance(c_.func, ast.Attribute) and c_.func.attr == "get_greenhouse_area"]
     rep.check(len(call) == 1 and len(area_calls) == 1 and share_src == area_calls[0] + ".greenhouse_fraction_area" and share_src.startswith("Greenhouses("), rule,
               "share = this run's greenhouse share",
